@@ -18,8 +18,14 @@ type (
 		cursors          map[int64]*storeKey
 		cursorsSize      int
 		waitingClients   *waitTable
+		// names that were WATCHed while they held no key, with the number of the
+		// last object stored under that name since (0 = none)
+		watchedMissing map[string]uint64
 	}
 )
+
+// marks the snapshot WATCH takes of a name that holds no key
+const watchedMissingFlag = uint64(1) << 63
 
 func newDataStore() *dataStore {
 	ds := &dataStore{
@@ -61,9 +67,34 @@ func (ds *dataStore) getLiveStoreKey(keyName string) (sk *storeKey, exists bool)
 	return
 }
 
+// The snapshot WATCH takes of a name that holds no key. The name is remembered,
+// so that a key stored under it later counts as a change even if it is gone
+// again by the time of EXEC.
+func (ds *dataStore) watchMissingUnlocked(keyName string) uint64 {
+	if ds.watchedMissing == nil {
+		ds.watchedMissing = map[string]uint64{}
+	}
+	last, known := ds.watchedMissing[keyName]
+	if !known {
+		ds.watchedMissing[keyName] = 0
+	}
+	return watchedMissingFlag | last
+}
+
+// an object was stored under keyName
+func (ds *dataStore) noteStoredUnlocked(keyName string, id uint64) {
+	if _, watched := ds.watchedMissing[keyName]; watched {
+		ds.watchedMissing[keyName] = id
+	}
+}
+
 func (ds *dataStore) hasChangedUnlocked(keyName string, id uint64) bool {
 	// a key whose deadline has passed is gone, which is a change if it was there when watched
 	sk, exists := ds.getLiveStoreKey(keyName)
+	if id&watchedMissingFlag != 0 {
+		// no key when it was watched: a key now, or one that came and went
+		return exists || ds.watchedMissing[keyName] != id&^watchedMissingFlag
+	}
 	if !exists {
 		return id != 0
 	} else {
@@ -78,6 +109,7 @@ func (ds *dataStore) newStoreKeyUnlocked(keyName string) *storeKey {
 		lastAccess: time.Now(),
 	}
 	ds.data.store(keyName, sk)
+	ds.noteStoredUnlocked(keyName, sk.id)
 	return sk
 }
 
@@ -98,6 +130,7 @@ func (ds *dataStore) copyStoreKeyUnlocked(srcKeyName, destKeyName string, dds *d
 	dds.dataObjectNumber++
 	newSk = sk.clone(dds.dataObjectNumber)
 	dds.data.store(destKeyName, newSk)
+	dds.noteStoredUnlocked(destKeyName, newSk.id)
 	return
 }
 
@@ -122,6 +155,7 @@ func (ds *dataStore) moveStoreKeyUnlocked(srcKeyName, destKeyName string, dds *d
 	dds.dataObjectNumber++
 	sk.id = dds.dataObjectNumber
 	dds.data.store(destKeyName, sk)
+	dds.noteStoredUnlocked(destKeyName, sk.id)
 
 	newSk = sk
 	return
